@@ -1,6 +1,8 @@
 import Driver.Util
 import Driver.Tzdb
 import TemporalModel.Spec.GrammarOps
+import TemporalModel.Spec.GrammarZoned
+import Driver.Zone
 namespace Driver
 open TemporalModel
 
@@ -8,6 +10,19 @@ def okOr (o : Option String) : String := match o with | some s => "ok " ++ s | n
 
 def handleParse (toks : List String) : Option String :=
   match toks with
+  | ["p_zdt", h, dis, oo] => do
+    let s ← unhex h
+    let dis ← disamb? dis; let oo ← offOpt? oo
+    let cs := s.toList
+    if !(Gram.coveredZone cs) then some "skip" else
+    some ((Gram.zonedDateTime cs dis oo).render (fun (ns, cal) => s!"{ns} {cal}"))
+  | ["p_rel", h] => do
+    let s ← unhex h
+    let cs := s.toList
+    if !(Gram.coveredZone cs) then some "skip" else
+    some ((Gram.relativeTo cs).render (fun r => match r with
+      | .plain d cal => s!"plain {d.year} {d.month} {d.day} {cal}"
+      | .zoned ns cal => s!"zoned {ns} {cal}"))
   | [op, h] => do
     if !op.startsWith "p_" then none else
     let s ← unhex h
